@@ -1,6 +1,6 @@
 SPECIFICATION Spec
 CONSTANTS
-  NP = 4
+  NP = 2
   NA = 3
   MaxStar = 2
   MaxTD = 2
